@@ -32,6 +32,12 @@ fn decls() -> Vec<Decl> {
         Decl { name: "Nat", recursive: true, ctors: vec![("+Z", T::Unit), ("+S", d("Nat"))] },
         Decl { name: "Void", recursive: false, ctors: vec![] },
         Decl { name: "W", recursive: false, ctors: vec![("+W", d("Void"))] },
+        Decl {
+            name: "Digit",
+            recursive: false,
+            ctors: vec![("+D0", T::Unit), ("+D1", T::Unit), ("+D2", T::Unit), ("+D3", T::Unit), ("+D4", T::Unit), ("+D5", T::Unit), ("+D6", T::Unit), ("+D7", T::Unit), ("+D8", T::Unit), ("+D9", T::Unit), ("+D10", T::Unit)],
+        },
+        Decl { name: "WrapD", recursive: false, ctors: vec![("+K", d("Digit")), ("+J", T::Unit)] },
     ]
 }
 
@@ -274,6 +280,33 @@ impl Matches {
     pub fn new(tier: Tier) -> Self {
         let mut cases = vec![];
         let budget = if tier == Tier::Thorough { 250_000 } else { 25_000 };
+        // wide sums: every subset of the constructors (in declaration order and reversed), alone and
+        // followed by a wildcard; bare and nested below another constructor
+        {
+            let names: Vec<&'static str> = decl("Digit").ctors.iter().map(|(c, _)| *c).collect();
+            for mask in 0u32..(1 << names.len()) {
+                let chosen: Vec<P> = (0..names.len()).filter(|i| mask >> i & 1 == 1).map(|i| P::C(names[i], Box::new(P::Unit))).collect();
+                let mut variants: Vec<Vec<P>> = vec![chosen.clone()];
+                if mask.count_ones() >= names.len() as u32 - 2 {
+                    let mut rev = chosen.clone();
+                    rev.reverse();
+                    variants.push(rev);
+                    let mut with_wild = chosen.clone();
+                    with_wild.push(P::Wild);
+                    variants.push(with_wild);
+                }
+                if tier == Tier::Quick && mask.count_ones() < names.len() as u32 - 3 && mask % 7 != 0 {
+                    continue;
+                }
+                for arms in variants {
+                    cases.push(MatchCase { ty: T::D("Digit"), arms: arms.clone() });
+                    // nested: +K(<digit pattern>) arms plus the +J arm
+                    let mut nested: Vec<P> = arms.iter().map(|p| P::C("+K", Box::new(p.clone()))).collect();
+                    nested.push(P::C("+J", Box::new(P::Unit)));
+                    cases.push(MatchCase { ty: T::D("WrapD"), arms: nested });
+                }
+            }
+        }
         for ty in scrutinee_types() {
             let mut depth = 2;
             let mut pats = patterns(&ty, depth);
